@@ -393,7 +393,7 @@ func check(prop string, args []string) int {
 	}
 
 	// ---- native concordance and replay ----
-	work := filepath.Join(verifDir, ".work", prop)
+	work := filepath.Join(verifDir, ".work", fmt.Sprintf("%s-%d", prop, os.Getpid())) // one directory per process: checks of one property may run side by side
 	os.RemoveAll(work)
 	os.MkdirAll(work, 0o755)
 	defer os.RemoveAll(work)
@@ -652,7 +652,7 @@ func replay(prop, file string) int {
 			vf.Known = append(vf.Known, f.ID)
 		}
 	}
-	work := filepath.Join(verifDir, ".work", prop+"-replay")
+	work := filepath.Join(verifDir, ".work", fmt.Sprintf("%s-replay-%d", prop, os.Getpid()))
 	os.RemoveAll(work)
 	os.MkdirAll(work, 0o755)
 	defer os.RemoveAll(work)
